@@ -27,3 +27,7 @@ func Assert(cond bool, name string) {
 
 // Cover marks a point that must be reachable with cond true (vacuity guard).
 func Cover(cond bool) {}
+
+// Ghost supplies the value of a ghost parameter (declared with "//@ ghost" in
+// a contract) for the calls that follow. It has no run-time effect.
+func Ghost[T any](name string, v T) {}
